@@ -62,6 +62,10 @@ var entries = map[string]func(in []byte) error{
 			b.TxLoc()
 			b.Tx(-1)
 			b.Tx(1 << 30)
+			b.Tx(0)
+			b.TxHash(0)
+			b.TxHash(-1)
+			b.Tx(len(b.MsgBlock().Transactions))
 		}
 		return err
 	},
@@ -91,6 +95,10 @@ var entries = map[string]func(in []byte) error{
 		tx := wire.NewMsgTx(1)
 		tx.AddTxIn(wire.NewTxIn(wire.NewOutPoint(&chainhash.Hash{2}, 0), item))
 		tx.AddTxOut(wire.NewTxOut(1, item, wire.TokenData{}))
+		// well-formed scripts that push data: pay-to-pubkey shaped and a bare push
+		key := append([]byte{0x02}, bytes.Repeat([]byte{0x11}, 32)...)
+		tx.AddTxOut(wire.NewTxOut(2, append(append([]byte{33}, key...), 0xac), wire.TokenData{}))
+		tx.AddTxOut(wire.NewTxOut(3, []byte{0x03, 1, 2, 3, 0x75}, wire.TokenData{}))
 		f.MatchTxAndUpdate(bchutil.NewTx(tx))
 		blk := wire.NewMsgBlock(wire.NewBlockHeader(1, &chainhash.Hash{}, &chainhash.Hash{}, 0, 0))
 		blk.AddTransaction(tx)
@@ -169,8 +177,10 @@ var entries = map[string]func(in []byte) error{
 			return f
 		}
 		bloom.GetMatchedIndices(b, mk())
-		bloom.NewMerkleBlock(b, mk())
-		merkleblock.NewMerkleBlockWithFilter(b, mk())
+		if len(b.MsgBlock().Transactions) > 0 { // proof construction is specified for n >= 1 (C11); see DESIGN.md section 12
+			bloom.NewMerkleBlock(b, mk())
+			merkleblock.NewMerkleBlockWithFilter(b, mk())
+		}
 		return nil
 	},
 	"JsonpbUnmarshal": func(in []byte) error {
@@ -413,6 +423,10 @@ func runC08(c *Ctx) {
 		}
 		call("NewBlockFromBytes", q)
 	}
+	// a block that declares no transactions at all (header + count 0), alone and followed by bytes
+	call("NewBlockFromBytes", append(append([]byte{}, ser[:80]...), 0))
+	call("NewBlockFromBytes", append(append([]byte{}, ser[:80]...), 0, 0, 0))
+	call("BlockScan", append(append([]byte{}, ser[:80]...), 0))
 	for _, cnt := range [][]byte{{0xfd, 0xff, 0xff}, {0xfe, 0xff, 0xff, 0xff, 0xff}, {0xff, 0xff, 0xff, 0xff, 0xff, 0xff, 0xff, 0xff, 0xff}, {0xfe, 0x00, 0x00, 0x00, 0x01}} {
 		q := append(append(append([]byte{}, ser[:80]...), cnt...), ser[81:]...) // transaction count
 		call("NewBlockFromBytes", q)
@@ -462,7 +476,8 @@ func runC08(c *Ctx) {
 		}
 	}
 	// JSON for the protobuf unmarshaller: heterogeneous arrays, deep nesting, wrong types
-	leaves := []string{`"00"`, `1`, `true`, `null`, `{}`, `[]`, `"zz"`, `"` + strings.Repeat("ab", 32) + `"`, `1e999`, `-0`}
+	leaves := []string{`"00"`, `1`, `true`, `null`, `{}`, `[]`, `"zz"`, `"` + strings.Repeat("ab", 32) + `"`, `1e999`, `-0`,
+		`"` + strings.Repeat("z", 64) + `"`, `"` + strings.Repeat("ab", 31) + `ag"`, `"` + strings.Repeat("ab", 32) + `0"`, `"` + strings.Repeat("ab", 16) + `"`}
 	var jsons []string
 	for _, a := range leaves {
 		jsons = append(jsons, a, `[`+a+`]`, `{"a":`+a+`}`, `{"block":`+a+`}`, `{"block":{"info":`+a+`}}`, `{"block":{"transaction_data":`+a+`}}`)
@@ -474,7 +489,7 @@ func runC08(c *Ctx) {
 	jsons = append(jsons, strings.Repeat("[", 3000)+strings.Repeat("]", 3000), strings.Repeat(`{"a":`, 3000)+"1"+strings.Repeat("}", 3000), `{"a":["00",1]}`, `{"a":[{"b":1},"00"]}`, `{"a":[["00"],"00"]}`, ``, `{`, `[1,`)
 	for _, j := range jsons {
 		call("JsonpbUnmarshal", []byte(j))
-	}	// blocks scanned against a filter: dependency chains and DAGs whose every transaction is relevant, children first
+	} // blocks scanned against a filter: dependency chains and DAGs whose every transaction is relevant, children first
 	// (the scan re-checks dependants; the work must stay polynomial).  Last, because a scan that does not return keeps
 	// a goroutine busy for the rest of the run.
 	for _, n := range []int{2, 4, 8, 12, 16, 20, 24, 32, 64, 200} {
